@@ -152,7 +152,9 @@ func runC15(c *core.Ctx) {
 	obj := fo["object"].(map[string]interface{})
 	for i := 0; i < r.Range(3, 12); i++ {
 		name := fmt.Sprintf("%c%d", 'a'+rune(r.Intn(26)), r.Intn(100))
-		switch r.Intn(4) {
+		switch r.Intn(5) {
+		case 4:
+			obj[name] = map[string]interface{}{"array": []interface{}{map[string]interface{}{"xpath": r.Pick("id | n | f1", "f1 | id", "n | id | *")}}}
 		case 0:
 			obj[name] = map[string]interface{}{"const": gen.RandString(r, 5, false)}
 		case 1:
